@@ -158,13 +158,14 @@ def fround (x d : Float) : Float :=
   let scale := Float.pow 10.0 nd
   (value * scale).round / scale
 
-/-- models functions/util.rs::compare_values on two numbers -/
+/-- the PINNED functions/util.rs::compare_values on two numbers (extra absolute epsilon; finding F06b) -/
 def fcmp (a b : Float) : Ordering :=
   let v1 := round15 a
   let v2 := round15 b
   if (v2 - v1).abs < eps then .eq else if v1 < v2 then .lt else .gt
 
-/-- reference comparison of two numbers: 15 significant digits, then exact -/
+/-- models functions/util.rs::compare_values on two numbers (repaired code = the reference rule):
+    15 significant digits, then exact -/
 def fcmpRef (a b : Float) : Ordering :=
   let v1 := round15 a
   let v2 := round15 b
@@ -183,7 +184,7 @@ def floatOps : Core.NumOps Float where
   abs := Float.abs
   round := fround
   isZero := fun x => x == 0.0
-  cmp := fcmp
+  cmp := fcmpRef
   min := fmin
   max := fmax
   finite := Float.isFinite
